@@ -103,6 +103,21 @@ CHECKS = {
         technique="history enumeration + Hypothesis RuleBasedStateMachine on a virtual-clock loop with instrumented transports",
         engine="vloop",
     ),
+    "C09": dict(
+        category="exploration",
+        text="(A) every public coroutine of ET/DT/ES objects and connect/discover/search_inverters runs against a simulated "
+             "inverter behind a scripted network with C04's faults plus OS errors (five errnos; raised by the send, delivered later, "
+             "delivered after the request completed) and TCP connect failures: only InverterError may escape and the loop's exception "
+             "handler must stay silent. (B) all histories over {success, failed, rejected} of length <= 8 on one Inverter are "
+             "enumerated and consecutive_failures_count compared with a reference counter. (C) Hypothesis-generated identification "
+             "payloads (random, ASCII with one foreign byte, embedded model tags; any AA55 length) are served to discover() and "
+             "read_device_info() of all families.",
+        design_ref="DESIGN.md section 4, C09; D3, D9",
+        note="Trusted: vlib/vloop.py + vlib/siminv.py. ValueError accepted where the documented contract is 'unknown sensor/setting' "
+             "after a Modbus exception answer; rejected requests neither count nor reset (D3).",
+        technique="fault-script enumeration + Hypothesis on a virtual-clock loop; exhaustive outcome histories vs reference counter; generated payloads",
+        engine="vloop+siminv",
+    ),
 }
 
 def main():
